@@ -75,6 +75,11 @@ CLAIMS['C07'] = ('proof',
     'finalize is COUNT n (never NULL) / NULL iff nothing was accumulated, and COUNT over any input sequence is the number of non-NULL inputs (induction lemma); the grouping key relation is the Eq/Hash laws of SqlValue (Kani, unit T-laws); '
     'the integer SIMD kernels of the columnar path are the same definitions (unit A-simd). group_rows, execute_with_aggregation (one row for empty input, HAVING), columnar/aggregate.rs and combine() are not under contract.',
     _B_NOTE, 'contract-based deductive verification: Verus step contracts on mechanically extracted functions + Kani on the key equality/hash laws', 'DESIGN.md 5/C07')
+CLAIMS['C09'] = ('proof',
+    'Narrow, kernel contracts only: the primary-key fast path of UPDATE and DELETE is proved (Verus, over the real AST): extract_primary_key_lookup (both copies) answers Some([lit]) only for pkcol = lit / lit = pkcol on a single-column '
+    'primary key, and RowSelector::select_rows returns for every table and WHERE clause exactly the rows the reference table scan returns (an index hit is used, a miss falls back to the scan) - under the stated assumption that an index HIT is the scan result. '
+    'The inline copy of that logic in DeleteExecutor::execute_internal, SET evaluation on pre-update values, row counts and INSERT coercion are not under contract.',
+    _B_NOTE, 'contract-based deductive verification: Verus on mechanically extracted functions over the real AST types', 'DESIGN.md 5/C09')
 NOT_APPLICABLE = {
     'C04': 'concurrency/rayon scheduling: Kani has no threads, Verus needs permission-typed code; the determinism-relevant comparator laws are claimed under C21/C08',
     'C05': 'every anchor is an AST-to-plan transformation or a join operator over Database/evaluator state: AST walks do not finish in CBMC and the code is outside the Verus subset',
